@@ -41,7 +41,7 @@ def run(ctx, F, cg):
                 sep = separator_after_first_arg(parts)
                 if sep is not None:
                     seps.setdefault(short, []).append(sep)
-    ctx.floor("R17c", "key/prefix format templates", sum(len(v) for v in seps.values()), 4)
+    ctx.floor("R17c", "key/prefix format templates", sum(len(v) for v in seps.values()), 2)
     first = {s[0] if s else "" for v in seps.values() for s in v}
     if len(first) != 1 or "" in first:
         ctx.violation("R17c", "separator-mismatch", "src/persistence/storage.rs", "key builders and scan prefixes do not share one separator right after the tenant id: %s" % seps)
@@ -74,25 +74,40 @@ def run(ctx, F, cg):
     nscan = 0
     for p, r in sorted(fns.items()):
         b = Body(F.mir(p), r)
-        its = [c for c in b.calls() if c.path.rsplit("::", 1)[-1] in ("prefix_iterator_cf", "prefix_iterator")]
-        if not its:
+        its = [c for c in b.calls() if c.path.rsplit("::", 1)[-1] in ("prefix_iterator_cf", "prefix_iterator", "iterator_cf", "iterator", "full_iterator_cf", "raw_iterator_cf", "iterator_cf_opt")]
+        tenant_params = [i for i in range(1, b.argc + 1) if b.local_ty(i).replace("'_ ", "") == "&str" and (b.local_name(i) or "").startswith("tenant")]
+        if not its or not tenant_params:
             continue
         ctx.saw_fn(p); ctx.saw_calls(len(b.calls()))
         short = p.replace(STORE, "")
         for it in its:
             nscan += 1
             inst = "%s|prefix-scan" % short
+            if it.path.rsplit("::", 1)[-1] not in ("prefix_iterator_cf", "prefix_iterator"):
+                # a full/seek iterator in a tenant-scoped function: same obligations (list_persisted_tenants has no tenant parameter and is not matched)
+                pass
             prefix_locals = od.chain_locals(b, it.args[-1]) if it.args and it.args[-1][0] != "k" else set()
             nexts = [c for c in b.calls() if c.path.endswith("Iterator>::next") and "ForLoop" in c.expname]
             consumers = [c for c in b.calls() if c.path.rsplit("::", 1)[-1] in CONSUMERS and any(b.dominates(n.bb, c.bb) for n in nexts)]
             tests = []
+            bare_tests = []
             for c in b.calls():
                 if c.path.rsplit("::", 1)[-1] in ("starts_with", "eq", "ne", "strip_prefix") and c.target is not None:
                     argl = set()
                     for a in c.args[1:]:
                         if a[0] != "k":
                             argl |= od.chain_locals(b, a)
-                    if not (argl & prefix_locals):
+                    # the pattern must be `tenant + separator`: a formatted string (or the iterator's own prefix), never the bare tenant name
+                    pat_og = []
+                    for a in c.args[1:]:
+                        if a[0] != "k":
+                            pat_og += b.origins(a[1][0], through_calls=lambda cc: [0] if cc.path.rsplit("::", 1)[-1] in ("as_bytes", "deref", "as_str", "as_ref", "borrow", "must_use") else None)
+                    formatted = any(o[0] == "call" and o[1].path.rsplit("::", 1)[-1] in ("format", "node_key", "edge_key", "tenant_prefix", "scan_prefix") for o in pat_og)
+                    bare = any(o[0] == "arg" and o[1] in tenant_params for o in pat_og) and not formatted
+                    if bare:
+                        bare_tests.append(c)
+                        continue
+                    if not (argl & prefix_locals) and not formatted:
                         continue
                     t = b.blocks[c.target]["t"]
                     if t[0] == "switch" and t[1][0] != "k" and t[1][1][0] == c.dest[0]:
@@ -101,6 +116,9 @@ def run(ctx, F, cg):
                             tests.append((c, c.target, false_t[0], t[3]))
             if not consumers:
                 ctx.violation("R17a", inst + "|no-consumer", where(r, it.line), "cannot find the record uses of this scan loop (checker needs update)")
+                continue
+            if bare_tests and not tests:
+                ctx.violation("R17a", inst + "|bare-tenant-prefix", where(r, bare_tests[0].line), "keys are compared with the bare tenant name, not `tenant + separator`: a scan for tenant 'acme' also accepts the keys of tenant 'acmecorp'")
                 continue
             if not tests:
                 ctx.violation("R17a", inst, where(r, it.line), "records returned by the prefix iterator are used without comparing their key with the prefix: without a prefix extractor the iterator continues into the following tenants' keys")
